@@ -71,6 +71,7 @@ type sItem struct {
 	val string
 	num int64
 	two bool
+	kind int
 }
 
 // symItems returns 0..max arbitrary items of family f (scalar families: 0..1).
@@ -87,9 +88,22 @@ func symItems(f int, max int) []sItem {
 			it.key = nondetString()
 			it.val = nondetString()
 		case f == famArgs:
-			it.key = nondetString()
-			it.two = nondetBool()
-			if it.two {
+			// 0: plain set [a] / [a b]   1: clear only [""]   2: clear and set ["" v]
+			it.kind = choose(3)
+			switch it.kind {
+			case 0:
+				shape("args=plain")
+				it.key = nondetString()
+				assume(it.key != "")
+				it.two = nondetBool()
+				if it.two {
+					it.val = nondetString()
+				}
+			case 1:
+				shape("args=clear")
+			case 2:
+				shape("args=clear+set")
+				it.two = true
 				it.val = nondetString()
 			}
 		case f == famCgroupsPath, f == famCpuCpus, f == famCpuMems, f == famBlockio, f == famRdt:
@@ -113,7 +127,7 @@ func itemSets(f int, it sItem, probe string) bool {
 		return it.key == probe
 	case f == famArgs:
 		// a non-empty first argument sets the command line; "" followed by more sets it after clearing
-		return bor(it.key != "", it.two)
+		return it.kind != 1
 	case f == famCgroupsPath, f == famCpuCpus, f == famCpuMems:
 		return it.val != ""
 	}
@@ -126,7 +140,7 @@ func itemRemoves(f int, it sItem, probe string) bool {
 	case famRemovable(f):
 		return band(hasDash(it.key), trimDash(it.key) == probe)
 	case f == famArgs:
-		return it.key == ""
+		return it.kind != 0
 	}
 	return false
 }
@@ -326,7 +340,11 @@ func buildAdjust(f int, items []sItem) *ContainerAdjustment {
 // and arbitrary presence of the optional sub-objects.
 func symOriginal(f int) *CreateContainerRequest {
 	c := &Container{Id: nondetString()}
-	if nondetBool() {
+	if f == famArgs {
+		if nondetBool() {
+			c.Args = []string{nondetString()}
+		}
+	} else if nondetBool() {
 		pre := symItems(f, 1)
 		if len(pre) == 1 {
 			it := pre[0]
@@ -341,8 +359,6 @@ func symOriginal(f int) *CreateContainerRequest {
 				c.Linux = &LinuxContainer{Devices: []*LinuxDevice{{Path: it.key}}}
 			case famRlimit:
 				c.Rlimits = []*POSIXRlimit{{Type: it.key}}
-			case famArgs:
-				c.Args = []string{it.key}
 			case famCgroupsPath:
 				c.Linux = &LinuxContainer{CgroupsPath: it.val}
 			case famOom:
